@@ -186,5 +186,10 @@ class HistParametricModel(ParametricModelBaseMixin, HistContainer):
             _y = np.ones_like(x) * _y
         return _y
 
+    def rebin(self, new_bin_edges):
+        super(HistParametricModel, self).rebin(new_bin_edges)
+        # the bin contents must be calculated again for the new bin edges
+        self._pm_calculation_stale = True
+
     def fill(self, entries):
         raise TypeError("Parametric model of histogram cannot be filled!")
